@@ -16,6 +16,10 @@ func (_ ValueBool) Kind() ValueKind { return BoolValueKind }
 func (self ValueBool) Display() (string, *VmInterrupt) { return fmt.Sprint(self.Inner), nil }
 
 func (self ValueBool) IsEqual(other Value) (bool, *VmInterrupt) {
+	// values of different kinds may meet where the static type is `any` (inside an option, an any-object)
+	if other.Kind() != self.Kind() {
+		return false, nil
+	}
 	return self.Inner == other.(ValueBool).Inner, nil
 }
 
